@@ -839,12 +839,21 @@ def gen_c18(seed, tier):
 
 def subject_variants(r):
     base = ["https://idp.example.org/idp", "https://sp.example.org/sp", NAMEID_FORMAT_PERSISTENT, "", "abc123"]
+    texts = ["abc124", "abc123 ", "abc123,4=x", "ABC123", "abc123%20"]
+    kind = r.pick(["persistent", "persistent", "mail", "unspecified"])
+    if kind == "mail":
+        # identifiers in e-mail format: the local part is case sensitive, two spellings are two subjects
+        base[2], base[4] = NAMEID_FORMAT_EMAILADDRESS, "Kim.Lee@example.org"
+        texts = ["kim.lee@example.org", "Kim.Lee@Example.org", "KIM.LEE@EXAMPLE.ORG", "Kim.Lee@example.org ", "Kim.Lee+x@example.org"]
+    elif kind == "unspecified":
+        base[2], base[4] = "urn:oasis:names:tc:SAML:1.1:nameid-format:unspecified", "User-17"
+        texts = ["user-17", "User-17 ", "User-17,4=x", "USER-17", "User-18"]
     pool = [list(base)]
     alts = {0: ["", "https://idp2.example.org/idp", "https://idp.example.org/idp "],
             1: ["", "https://sp.example.org/sp2", "https://sp.example.org/sp,1"],
-            2: [NAMEID_FORMAT_TRANSIENT, "", NAMEID_FORMAT_EMAILADDRESS],
+            2: [f_ for f_ in [NAMEID_FORMAT_TRANSIENT, "", NAMEID_FORMAT_EMAILADDRESS, NAMEID_FORMAT_PERSISTENT] if f_ != base[2]][:3],
             3: ["x", "1=y", " "],
-            4: ["abc124", "abc123 ", "abc123,4=x", "ABC123", "abc123%20"]}
+            4: texts}
     for idx, vals in alts.items():
         for v in vals:
             t = list(base)
@@ -857,6 +866,11 @@ def gen_c19(seed, tier):
     r = mkrng(seed, "workload")
     pool = subject_variants(r)
     subjects = [pool[0]] + r.sample(pool[1:], 2)
+    if r.chance(0.5):
+        # make sure a subject whose text is a near twin of the first one's takes part
+        subjects[1] = r.pick([t for t in pool[1:] if t[4] != pool[0][4] and t[:4] == pool[0][:4]])
+        if subjects[2] == subjects[1]:
+            subjects[2] = r.pick([t for t in pool[1:] if t != subjects[1]])
     sources = ["https://idp-a.example/idp", "https://idp-b.example/idp", "https://aa.example/aa"]
     attrs = ["mail", "givenName", "eduPersonAffiliation"]
     n = r.pick([4, 6, 10, 14]) if tier == "quick" else r.pick([8, 14, 40, 200])
